@@ -91,7 +91,11 @@ class NpCalls:
                 if name in ('mod', 'remainder'):
                     r = r.w(bin=('%', a, b, interp.sx(node.args[0]) if node is not None and node.args else None, None))
                 return r.w(ty='ndarray' if a.ty == 'ndarray' or b.ty == 'ndarray' else r.ty)
-            return join_all([as_array(a) for a in args[:2]]).w(deps=d, const=None, store='fresh')
+            out_ = join_all([as_array(a) for a in args[:2]]).w(deps=d, const=None, store='fresh')
+            if name in ('maximum', 'minimum') and len(args) >= 2:
+                # a value bounded from below / above by the other operand
+                out_ = out_.w(clamp=('lo' if name == 'maximum' else 'hi', as_array(args[0]), as_array(args[1])))
+            return out_
         if name in ('zeros', 'ones', 'empty', 'full', 'zeros_like', 'ones_like', 'empty_like', 'full_like', 'eye',
                     'identity'):
             out = AV(ty='ndarray', store='fresh', fresh=True, deps=d, alloc=name)
@@ -689,6 +693,12 @@ class NpCalls:
         out = AV(ty='ndarray' if (new_axes is None or len(new_axes) > 0) else 'float', minwidth=width, geo=ng, axes=new_axes, deps=d,
                  store='fresh', mono=nm, red=(name, x, axis, tuple(sorted(removed))), idx=x.idx if name in ORDER_REDUCERS else None,
                  mono_unknown=x.mono_unknown)
+        if name in ('any', 'all') and x.litconst is not None and axis in (1, -1):
+            try:
+                fn_ = all if name == 'all' else any
+                out = out.w(litconst=('c', [bool(fn_(row)) for row in x.litconst[1]]))
+            except TypeError:
+                pass
         if name in ('any', 'all'):
             if x.idx is not None and x.idx[0] in ('FRAME', 'SITE', 'ATOM', 'ATOMFRAME', 'LOCALSITE', 'BIN') and x.dtype != 'bool' and x.cmp is None and x.nonzero_of is not None:
                 # .any() of an array of positions tests whether some position is non-zero, not whether there are any: position 0 counts as 'none'
